@@ -3,6 +3,7 @@ import re
 
 from .. import renderers
 from ..core import Fail, HypPart, Out, Prop, exc_sig
+from ..gen import pools
 from ..gen.tape import Tape, tapes
 from ..oracle import emphasis
 
@@ -229,7 +230,9 @@ class Composed(Prose):
         while not t.exhausted():
             lines = []
             for _ in range(t.weighted([(3, 1), (3, 2), (2, 3), (1, 4)])):
-                lines.append(indent(t, not lines) + ' '.join(t.choice(VOCAB) if t.chance(64) else compose_token(t) for _ in range(1 + t.below(6))))
+                lines.append(indent(t, not lines) + ' '.join(
+                    t.choice(VOCAB) if t.chance(64) else (pools.numeric_ref(t) + t.choice(['', 'x', '.'])) if t.chance(24) else compose_token(t)
+                    for _ in range(1 + t.below(6))))
             yield {'lines': lines}
 
 
